@@ -79,6 +79,22 @@ func init() {
 				p.Knobs.Align = &AlignSpec{Pick: g.pick(4), Eps: []int{0, 0, 0, -1, 1}[g.pick(5)], Mult: g.pick(2)}
 			}
 			p.Sched = g.RandSched()
+			if alignAt < 0 && g.chance(1, 4) {
+				// a commit is several store writes (path values, then the record that says up to which index they are
+				// merged): a write that fails or loses its acknowledgement, or a crash, between them must not make
+				// something readable that the plugin never accepted - or drop something it accepted
+				p.Profile += "+store-faults"
+				for i := 0; i <= g.pick(2); i++ {
+					switch g.pick(3) {
+					case 0:
+						p.Faults = append(p.Faults, Fault{Kind: "crash", On: "effect", N: 5 + g.pick(120)})
+					case 1:
+						p.Faults = append(p.Faults, Fault{Kind: "op-unavail", On: "write", N: 5 + g.pick(150)})
+					default:
+						p.Faults = append(p.Faults, Fault{Kind: "op-acklost", On: "write", N: 5 + g.pick(150)})
+					}
+				}
+			}
 			p.Knobs.ConnLate = map[string]bool{}
 			for _, t := range p.Knobs.Targets {
 				p.Knobs.ConnLate[t] = true
